@@ -55,6 +55,26 @@ def skip_rule(crate, prop, rule="C02.R2"):
                             p = op_place(o)
                             if p and p["l"] in vals:
                                 delegated = True
+            if not delegated and not sw:
+                # `Ok(!attr.skip)`, `attr.skip || ..`: the flag itself (or a boolean computed from it) is what the helper returns
+                seen_l, todo = set(), [0]
+                while todo and not delegated:
+                    cur = todo.pop()
+                    if cur in seen_l:
+                        continue
+                    seen_l.add(cur)
+                    for db, i, d in M.def_sites(body, cur):
+                        if body.is_cleanup(db) or i == "term":
+                            continue
+                        rv = d["rv"]
+                        ops = [rv["op"]] if rv["k"] in ("use", "cast") else rv["ops"] if rv["k"] == "agg" else [rv["a"]] if rv["k"] == "unop" else [rv["a"], rv["b"]] if rv["k"] == "binop" else []
+                        for o in ops:
+                            p = op_place(o)
+                            if p is None:
+                                continue
+                            if p["l"] in vals and ".skip" in p["p"]:
+                                delegated = True
+                            todo.append(p["l"])
             r.inst(fn=fold(body.path), source=kind + "::from_attrs", where="%s:%s" % (f, l), skip_tested=bool(sw), returned_to_caller=delegated)
             if not sw and delegated:
                 continue
